@@ -4,6 +4,9 @@ pub mod c06;
 pub mod c07;
 pub mod c08;
 pub mod c09;
+pub mod c11;
+pub mod c13;
+pub mod c14;
 pub mod linerules;
 
 pub const TABLE: &[(&str, fn(&mut Run))] = &[
@@ -11,4 +14,7 @@ pub const TABLE: &[(&str, fn(&mut Run))] = &[
     ("C07", c07::run),
     ("C08", c08::run),
     ("C09", c09::run),
+    ("C11", c11::run),
+    ("C13", c13::run),
+    ("C14", c14::run),
 ];
